@@ -210,11 +210,20 @@ pub struct MsgExpect {
 impl MsgExpect {
     /// `units`: per unit its expected events and whether it is faulty.
     pub fn from_units(units: &[(Vec<Expect>, bool)]) -> MsgExpect {
+        let u3: Vec<(Vec<Expect>, Vec<Expect>, bool)> = units.iter().map(|u| (u.0.clone(), u.0.clone(), u.1)).collect();
+        MsgExpect::from_units3(&u3)
+    }
+
+    /// `units`: per unit (events if execution continues after it, events if the message
+    /// stops after it, whether it may stop the message).
+    pub fn from_units3(units: &[(Vec<Expect>, Vec<Expect>, bool)]) -> MsgExpect {
         let all: Vec<Expect> = units.iter().flat_map(|u| u.0.iter().cloned()).collect();
         let mut alts = vec![all];
         for (k, u) in units.iter().enumerate() {
-            if u.1 && k + 1 < units.len() {
-                alts.push(units[..=k].iter().flat_map(|u| u.0.iter().cloned()).collect());
+            if u.2 && (k + 1 < units.len() || u.0 != u.1) {
+                let mut v: Vec<Expect> = units[..k].iter().flat_map(|u| u.0.iter().cloned()).collect();
+                v.extend(u.1.iter().cloned());
+                alts.push(v);
             }
         }
         MsgExpect { alts }
